@@ -1086,6 +1086,10 @@ class WeightedTally(StatisticsInterface):
         """
         if self._n_nonzero > 0:
             w_pop_var = self._weight_times_variance / self._sum_of_weights
+            if w_pop_var < 0:
+                # rounding (subnormal weights) can leave the accumulator a
+                # hair below zero; a variance is never negative
+                w_pop_var = 0.0
             if biased:
                 return w_pop_var
             elif self._n_nonzero > 1:
